@@ -380,7 +380,7 @@ func cmdCheck(writeBaseline bool, argv []string) int {
 		}
 		toSolve = nil
 		for _, o := range obls {
-			if want[o.ID] || missingFK[o.Func+"#"+o.Kind] || (o.Kind == "frame" && !knownNotClaimed[o.ID]) || ((o.Kind == "reach" || o.Kind == "send" || o.Kind == "inv-pres" || o.Kind == "inv-entry" || o.Kind == "cb-pres" || o.Kind == "cb-entry") && gateStem[idStem(o.ID)]) {
+			if want[o.ID] || missingFK[o.Func+"#"+o.Kind] || (o.Kind == "frame" && !knownNotClaimed[o.ID]) || (o.Kind == "reach" && strings.HasSuffix(o.Text, " only_if false")) || ((o.Kind == "reach" || o.Kind == "send" || o.Kind == "inv-pres" || o.Kind == "inv-entry" || o.Kind == "cb-pres" || o.Kind == "cb-entry") && gateStem[idStem(o.ID)]) {
 				toSolve = append(toSolve, o)
 			}
 		}
@@ -598,6 +598,9 @@ func cmdCheck(writeBaseline bool, argv []string) int {
 		}
 		if len(missingByFuncKind[fk]) > 0 {
 			viols = append(viols, viol{o, o.ID, o.Status + " (replaces baseline obligation " + missingByFuncKind[fk][0] + ")"})
+		} else if o.Kind == "reach" && strings.HasSuffix(o.Text, " only_if false") {
+			// `never "call:NAME"`: the call exists now
+			viols = append(viols, viol{o, o.ID, o.Status + " (a call the contract forbids)"})
 		} else if fc := contractOfFunc[o.Func]; o.Kind == "frame" && fc != nil && fc.HasAssigns && !fc.Trusted && clauseTagged(fc, prop) && framedAtBaseline[o.Func] {
 			// the function's assigns clause is part of its claimed contract and
 			// every write it made when the baseline was taken stayed inside it:
